@@ -39,8 +39,7 @@ Proof.
     clear - fd_expr_none Hargs.
     induction args as [|a args IH]; simpl in *; auto.
     apply andb_true_iff in Hargs. destruct Hargs as [Ha Hr].
-    destruct a; try discriminate;
-      rewrite (fd_expr_none e Ha); apply IH; auto.
+    destruct a; rewrite (fd_expr_none e Ha); apply IH; auto.
   - (* ESlice *)
     rewrite (fd_expr_none e) by assumption.
     destruct lo as [lo|]; [rewrite (fd_expr_none lo) by assumption|];
@@ -54,6 +53,7 @@ Proof.
   intros Hok fid encl. destruct t; simpl in *; try discriminate; auto.
   - apply andb_true_iff in Hok. destruct Hok as [Hx Hy].
     rewrite (fd_expr_none x Hx). apply fd_expr_none; auto.
+  - apply fd_expr_none; auto.
   - induction ts as [|a ts IH]; simpl in *; auto.
     apply andb_true_iff in Hok. destruct Hok as [Ha Hts].
     rewrite (fd_target_none a Ha). apply IH; auto.
